@@ -177,6 +177,15 @@ func run(r *vt.Run, t vt.TB, s spec) {
 			attrs = append(attrs, a)
 		}
 		tgts = append(tgts, tgt{"w", ix, w.Entries, attrs, &[3][]int{w.IShape.InteriorEntry, w.IShape.LeafFirst, w.IShape.LeafLast}, w.IShape.Depth})
+		// its secondary indexes (entries end in primary key columns, not a rowid)
+		for name, bi := range w.Indexes {
+			ix, err := d.Index(name)
+			if err != nil {
+				fail("open", "Index(%s): %v", name, err)
+				return
+			}
+			tgts = append(tgts, tgt{name, ix, bi.Entries, bi.Key, &[3][]int{bi.Shape.InteriorEntry, bi.Shape.LeafFirst, bi.Shape.LeafLast}, bi.Shape.Depth})
+		}
 	}
 	maxDepth, boundaryCuts, cuts := 0, 0, 0
 	rs := s.Seed
